@@ -1,14 +1,136 @@
 package main
 
+import (
+	"bytes"
+	"context"
+	"encoding/json"
+	"fmt"
+	"os"
+	"os/exec"
+	"path/filepath"
+	"regexp"
+	"strings"
+	"time"
+)
+
 // tryReplay attempts to turn a failed obligation's model into a failing run of the real code.
-// Families with a template register themselves in replayers.
+// Families with a template register themselves in replayers (key: prefix of the obligation name).
 var replayers = map[string]func(w *World, nr *namedResult) (bool, interface{}){}
 
 func tryReplay(w *World, prop string, nr *namedResult) (bool, interface{}) {
-	for prefix, f := range replayers {
-		if len(nr.Name) >= len(prefix) && nr.Name[:len(prefix)] == prefix {
-			return f(w, nr)
+	best := ""
+	for prefix := range replayers {
+		if strings.HasPrefix(nr.Name, prefix) && len(prefix) > len(best) {
+			best = prefix
 		}
 	}
+	if best != "" {
+		return replayers[best](w, nr)
+	}
 	return false, "no replay template for this obligation family; the solver output above is the evidence"
+}
+
+// modelValues parses the (get-value ...) answer: a list of (term value) pairs.
+func modelValues(out string) map[string]string {
+	res := map[string]string{}
+	i := strings.Index(out, "((")
+	if i < 0 {
+		return res
+	}
+	s := out[i+1:]
+	// split top-level pairs
+	depth := 0
+	start := -1
+	for k := 0; k < len(s); k++ {
+		switch s[k] {
+		case '(':
+			if depth == 0 {
+				start = k
+			}
+			depth++
+		case ')':
+			depth--
+			if depth == 0 && start >= 0 {
+				pair := s[start+1 : k]
+				// term is first s-expr or atom
+				term, val := splitFirst(pair)
+				res[strings.TrimSpace(term)] = normalizeInt(strings.TrimSpace(val))
+				start = -1
+			}
+			if depth < 0 {
+				return res
+			}
+		}
+	}
+	return res
+}
+
+func splitFirst(s string) (string, string) {
+	s = strings.TrimSpace(s)
+	if strings.HasPrefix(s, "(") {
+		d := 0
+		for i := 0; i < len(s); i++ {
+			if s[i] == '(' {
+				d++
+			}
+			if s[i] == ')' {
+				d--
+				if d == 0 {
+					return s[:i+1], s[i+1:]
+				}
+			}
+		}
+	}
+	i := strings.IndexAny(s, " \t\n")
+	if i < 0 {
+		return s, ""
+	}
+	return s[:i], s[i+1:]
+}
+
+var negRe = regexp.MustCompile(`^\(-\s*(\d+)\)$`)
+
+func normalizeInt(v string) string {
+	if m := negRe.FindStringSubmatch(v); m != nil {
+		return "-" + m[1]
+	}
+	return v
+}
+
+// firstValue returns the model value of the first witness term whose text starts with prefix.
+func firstValue(vals map[string]string, prefix string) (string, bool) {
+	best := ""
+	for k := range vals {
+		if strings.HasPrefix(k, prefix) && (best == "" || k < best) {
+			best = k
+		}
+	}
+	if best == "" {
+		return "", false
+	}
+	return vals[best], true
+}
+
+// runOverlayTest injects an in-package test file into the repository build (no file is written under the repository) and runs it.
+func runOverlayTest(repoDir, pkgRel, fileName, content, runPattern string) (passed bool, output string) {
+	tmp, err := os.MkdirTemp("/var/tmp", "gvc-replay-")
+	if err != nil {
+		return true, "cannot create scratch dir: " + err.Error()
+	}
+	defer os.RemoveAll(tmp)
+	src := filepath.Join(tmp, fileName)
+	os.WriteFile(src, []byte(content), 0o644)
+	ov := map[string]map[string]string{"Replace": {filepath.Join(repoDir, pkgRel, fileName): src}}
+	ovb, _ := json.Marshal(ov)
+	ovf := filepath.Join(tmp, "overlay.json")
+	os.WriteFile(ovf, ovb, 0o644)
+	ctx, cancel := context.WithTimeout(context.Background(), 180*time.Second)
+	defer cancel()
+	cmd := exec.CommandContext(ctx, "bash", "-c", fmt.Sprintf("ulimit -v 8000000; cd %s && go test -overlay %s -vet=off -count=1 -timeout 60s -run '%s' ./%s", repoDir, ovf, runPattern, pkgRel))
+	cmd.Env = append(os.Environ(), "GOFLAGS=-mod=mod", "GOPROXY=off", "GOSUMDB=off", "GOTOOLCHAIN=local")
+	var buf bytes.Buffer
+	cmd.Stdout = &buf
+	cmd.Stderr = &buf
+	err = cmd.Run()
+	return err == nil, truncate(buf.String(), 6000)
 }
